@@ -166,6 +166,12 @@ func (x *ctx) examine(what string, err error) {
 		x.bad("%s returned %T which is not a library error (no code/message/position): %s", what, err, txt)
 		return
 	}
+	if txt, _ := lib.ErrorText(err); strings.Contains(txt, "runtime error:") {
+		// a Go runtime panic (index out of range, nil dereference ...) recovered somewhere inside the
+		// library and dressed up as a library error: the call crashed, it did not diagnose the input
+		x.bad("%s returned a recovered Go runtime error as its diagnosis: %s", what, strings.SplitN(txt, "\n", 2)[0])
+		return
+	}
 	if pe != nil {
 		src, ok := "", false
 		if f, okf := pe.(interface{ Filename() string }); okf {
@@ -188,7 +194,11 @@ func (x *ctx) examine(what string, err error) {
 				x.bad("%s: rendering the error panicked: %v", what, r)
 			}
 		}()
-		_ = err.Error()
+		if txt := err.Error(); strings.Contains(txt, "%!") {
+			// fmt's marker for a verb without a matching argument: a text taken from the input was
+			// used as a format string
+			x.bad("%s: the rendered error contains a formatting artefact: %s", what, txt)
+		}
 		x.rendered++
 		var de liberrors.DocumentError
 		if errors.As(err, &de) {
@@ -198,7 +208,15 @@ func (x *ctx) examine(what string, err error) {
 			_ = de.Message()
 			_ = de.IncorrectUserType()
 		}
-		_ = kit.ConvertError(fs.NewFile("root", ""), err)
+		k := kit.ConvertError(fs.NewFile("root", x.sources["root"]), err)
+		if de0, ok := err.(liberrors.DocumentError); ok && k != nil {
+			// an error that already knows its file keeps it through the conversion (the error may
+			// stem from an added type's text, not from the file the caller passes)
+			if k.Filename() != de0.Filename() || k.Position() != de0.Position() || k.ErrCode() != de0.ErrCode() || k.IncorrectUserType() != de0.IncorrectUserType() {
+				x.bad("%s: kit.ConvertError changed the error: file %q position %d code %d type %q became file %q position %d code %d type %q", what,
+					de0.Filename(), de0.Position(), de0.ErrCode(), de0.IncorrectUserType(), k.Filename(), k.Position(), k.ErrCode(), k.IncorrectUserType())
+			}
+		}
 	}()
 }
 
@@ -309,7 +327,7 @@ func (x *ctx) run(c Case) {
 // ---------------------------------------------------------------------------------------
 // inputs
 
-var hostile = []byte{0x00, 0x1f, 0x7f, 0x80, 0xff, '\\', '"', '.', 'e', '+', '-', '0', ',', ':', ']', '}', '[', '{', ' ', '\n', '\r', 't', 'n', '/', '*', '#', '@', '|'}
+var hostile = []byte{0x00, 0x1f, 0x7f, 0x80, 0xff, '\\', '"', '.', 'e', '+', '-', '0', ',', ':', ']', '}', '[', '{', ' ', '\n', '\r', 't', 'n', '/', '*', '#', '@', '|', '%', 0xEF}
 
 func byteMutate(t *rapid.T, s string, label string) string {
 	b := []byte(s)
@@ -410,9 +428,21 @@ func baseCase(t *rapid.T) Case {
 		}
 	case 1:
 		m := gen.RuledTree(t, 2, false, "m")
+		if rapid.Bool().Draw(t, "notes") {
+			m.Walk(func(n *ref.SNode) {
+				if rapid.IntRange(0, 2).Draw(t, "note") == 0 {
+					n.Note = rapid.SampledFrom([]string{"note", "a note *", "50% of it", "x - y", "* star", "%d %s %v"}).Draw(t, "noteText")
+				}
+			})
+		}
 		st := gen.DefaultStyle()
 		st.MultiLine = rapid.Bool().Draw(t, "multi")
 		st.SpreadRules = st.MultiLine && rapid.Bool().Draw(t, "spread")
+		st.AutoItemNotes = st.MultiLine && rapid.Bool().Draw(t, "itemNotes")
+		if !st.MultiLine {
+			st.MixedAnn = rapid.SampledFrom([]int{0, 0, 1, 2}).Draw(t, "mixedAnn")
+			st.EmptyAnn = rapid.SampledFrom([]int{0, 0, 2}).Draw(t, "emptyAnn")
+		}
 		c.Schema = string(gen.PrintSchema(m, st))
 		if ex, ok := gen.ExampleJSON(m); ok {
 			c.Docs = append(c.Docs, string(ex))
